@@ -42,7 +42,7 @@ def _first_store(path, recv):
     return None, None
 
 
-def _site(ctx, fi, name, select, accept, recv="self", loops=1, floor=1):
+def _site(ctx, rule, fi, name, select, accept, recv="self", loops=1, floor=1):
     """All selected paths that store contents must coerce `recv` with an accepted argument first."""
     ctx.saw(fi)
     n = 0
@@ -67,11 +67,11 @@ def _site(ctx, fi, name, select, accept, recv="self", loops=1, floor=1):
                        + (f" (found only {others})" if others else " (none on the path)"))
     key = f"{fi.qualname}:{name}"
     if n < floor:
-        ctx.bad("C13.a", key, f"expected at least {floor} storing path(s) for this site, found {n} (anchor moved?)", fi.where)
+        ctx.bad(rule, key, f"expected at least {floor} storing path(s) for this site, found {n} (anchor moved?)", fi.where)
     elif bad:
-        ctx.bad("C13.a", key, " ; ".join(sorted(set(bad))[:3]), fi.where)
+        ctx.bad(rule, key, " ; ".join(sorted(set(bad))[:3]), fi.where)
     else:
-        ctx.ok("C13.a", key, f"{n} storing path(s), each dominated by the coercion", fi.where)
+        ctx.ok(rule, key, f"{n} storing path(s), each dominated by the coercion", fi.where)
 
 
 def _cond(path, text, value=True):
@@ -112,6 +112,91 @@ def check_int_float_refusal(ctx, rule, m, kname):
                   "after the arrays were allocated", fi.where)
 
 
+def check_fill_coercion(ctx, rule, m):
+    """fill / fill_n (1D, ND): the weight's / weights' dtype is coerced before the first store of contents or missed values."""
+    H1, HN = m.cls("Histogram1D"), m.cls("HistogramND")
+
+    def arg_is(*texts):
+        return lambda a, env: U(a) in texts or U(env.expand(a)) in texts
+    for cls in (H1, HN):
+        fi = cls.methods["fill"]
+        w = [p for p in fi.params() if p != "self"][1]
+        _site(ctx, rule, fi, "weight", lambda p, e: True, arg_is(f"type({w})", f"np.asarray({w}).dtype", f"np.dtype(type({w}))"), floor=2)
+    f1 = H1.methods["fill_n"]
+    _site(ctx, rule, f1, "weights", lambda p, e: _cond(p, "weights_array is not None"),
+          lambda a, env: U(a).endswith(".dtype") and "weights" in U(a), floor=1)
+    fn = HN.methods["fill_n"]
+    _site(ctx, rule, fn, "weights", lambda p, e: _cond(p, "weights is not None") and not _cond(p, "weights is not None", False)
+          and not any(s[0] == "cond" and "weights.shape" in U(s[1]) and not s[2] for s in p),
+          lambda a, env: U(a).endswith(".dtype") and "weights" in U(a), floor=1)
+
+
+
+def check_set_dtype_checks(ctx, rule, m):
+    """set_dtype: integrality and range checks over frequencies AND errors2, all before the first store."""
+    HB = m.cls("HistogramBase")
+    sd = HB.methods["set_dtype"]
+    ctx.saw(sd)
+    loops = [n for n in ast.walk(sd.node) if isinstance(n, ast.For)]
+    integ = rng = None
+    for lp in loops:
+        it = U(lp.iter)
+        body = "".join(U(b) for b in lp.body)
+        both = ("frequencies" in it and "errors2" in it)
+        if "% 1" in body:
+            integ = both
+        if "max" in body and "min" in body:
+            rng = both
+    ctx.check(integ is True, rule, "HistogramBase.set_dtype:integrality-both-arrays",
+              "non-integral values are looked for in frequencies and errors2",
+              "the integrality check does not cover both frequencies and errors2", sd.where)
+    ctx.check(rng is True, rule, "HistogramBase.set_dtype:range-both-arrays", "range check over both arrays",
+              "the range check does not cover both frequencies and errors2", sd.where)
+    guard_ok = False
+    order_ok = True
+    for path in function_paths(sd.node):
+        stored = False
+        for step in path:
+            if step[0] == "stmt" and any(w.root == "self" and w.attr in ("_dtype", "_frequencies", "_errors2", "_missed")
+                                         for w in writes_of(step[1])):
+                stored = True
+            if step[0] == "cond" and stored and not U(step[1]).endswith("is not None"):
+                order_ok = False
+        if end_kind(path) == "raise" and stored:
+            order_ok = False
+        cs = [(U(s[1]), s[2]) for s in path if s[0] == "cond"]
+        if ("np.issubdtype(value, np.integer)", True) in cs and ("self.dtype.kind == 'f'", True) in cs:
+            guard_ok = True
+    ctx.check(guard_ok, rule, "HistogramBase.set_dtype:integrality-guard",
+              "integrality is checked when the target is integral and the source is floating",
+              "the integrality check is no longer applied for float -> integer conversions", sd.where)
+    ctx.check(order_ok, rule, "HistogramBase.set_dtype:checks-before-stores", "every test / raise precedes the first store",
+              "set_dtype stores before a later check", sd.where)
+
+
+def check_missed_alloc(ctx, rule, m):
+    """The missed store is created from the given values, unmodified, with the histogram's dtype."""
+    for cname, want in (("Histogram1D", "missed"), ("HistogramND", "[missed]")):
+        cls = m.cls(cname)
+        init = cls.methods["__init__"]
+        ctx.saw(init)
+        stores = [st for st in ast.walk(init.node) if isinstance(st, ast.Assign) and U(st.targets[0]) == "self._missed"]
+        ok = bool(stores)
+        given = False
+        for st in stores:
+            v = st.value
+            if not (isinstance(v, ast.Call) and call_is(v, "array", "zeros") and any(k.arg == "dtype" and U(k.value) == "self.dtype" for k in v.keywords)):
+                ok = False
+            elif call_is(v, "array"):
+                if U(v.args[0]) == want:
+                    given = True
+                else:
+                    ok = False
+        ctx.check(ok and given, rule, f"{cname}.__init__:missed-dtype", f"_missed = np.array({want}, dtype=self.dtype) - the values given, unmodified",
+                  "the missed store is not created from the given values (unmodified) with the histogram's dtype "
+                  "(e.g. NaN 'unknown' markers are rewritten)", init.where)
+
+
 def run(ctx):
     m = ctx.model
     H1, HN, HB, H2 = m.cls("Histogram1D"), m.cls("HistogramND"), m.cls("HistogramBase"), m.cls("Histogram2D")
@@ -128,33 +213,22 @@ def run(ctx):
                          f"np.result_type({param})", f"np.dtype(type({param}))", f"np.array({param}).dtype")
         return acc
 
-    for cls in (H1, HN):
-        fi = cls.methods["fill"]
-        w = [p for p in fi.params() if p != "self"][1]
-        _site(ctx, fi, "weight", lambda p, e: True, arg_is(f"type({w})", f"np.asarray({w}).dtype", f"np.dtype(type({w}))"), floor=2)
-    f1 = H1.methods["fill_n"]
-    _site(ctx, f1, "weights", lambda p, e: _cond(p, "weights_array is not None"),
-          lambda a, env: U(a).endswith(".dtype") and "weights" in U(a), floor=1)
-    fn = HN.methods["fill_n"]
-    _site(ctx, fn, "weights", lambda p, e: _cond(p, "weights is not None") and not _cond(p, "weights is not None", False)
-          and not any(s[0] == "cond" and "weights.shape" in U(s[1]) and not s[2] for s in p),
-          lambda a, env: U(a).endswith(".dtype") and "weights" in U(a), floor=1)
-
+    check_fill_coercion(ctx, "C13.a", m)
     ia = HB.methods["__iadd__"]
     o = [p for p in ia.params() if p != "self"][0]
-    _site(ctx, ia, "histogram-operand", lambda p, e: _cond(p, f"isinstance({o}, HistogramBase)"), arg_is(f"{o}.dtype"), floor=2)
-    _site(ctx, ia, "array-operand", lambda p, e: _cond(p, f"isinstance({o}, HistogramBase)", False),
+    _site(ctx, "C13.a", ia, "histogram-operand", lambda p, e: _cond(p, f"isinstance({o}, HistogramBase)"), arg_is(f"{o}.dtype"), floor=2)
+    _site(ctx, "C13.a", ia, "array-operand", lambda p, e: _cond(p, f"isinstance({o}, HistogramBase)", False),
           dtype_of_asarray(o), floor=1)
     isub = HB.methods["__isub__"]
     o = [p for p in isub.params() if p != "self"][0]
-    _site(ctx, isub, "histogram-operand", lambda p, e: _cond(p, f"isinstance({o}, HistogramBase)"), arg_is(f"{o}.dtype"), floor=1)
+    _site(ctx, "C13.a", isub, "histogram-operand", lambda p, e: _cond(p, f"isinstance({o}, HistogramBase)"), arg_is(f"{o}.dtype"), floor=1)
     im = HB.methods["__imul__"]
     o = [p for p in im.params() if p != "self"][0]
-    _site(ctx, im, "factor", lambda p, e: True, dtype_of_asarray(o), floor=2)
+    _site(ctx, "C13.a", im, "factor", lambda p, e: True, dtype_of_asarray(o), floor=2)
     idv = HB.methods["__itruediv__"]
-    _site(ctx, idv, "division", lambda p, e: True, lambda a, env: U(a) in FLOAT_TYPES, floor=2)
+    _site(ctx, "C13.a", idv, "division", lambda p, e: True, lambda a, env: U(a) in FLOAT_TYPES, floor=2)
     pn = H2.methods["partial_normalize"]
-    _site(ctx, pn, "division", lambda p, e: True, lambda a, env: U(a) in FLOAT_TYPES, floor=1)
+    _site(ctx, "C13.a", pn, "division", lambda p, e: True, lambda a, env: U(a) in FLOAT_TYPES, floor=1)
     HC = m.cls("HistogramCollection")
     nb = HC.methods["normalize_bins"]
     loopvar = None
@@ -163,7 +237,7 @@ def run(ctx):
             loopvar = n.target.id
     if loopvar is None:
         raise AnalysisError("HistogramCollection.normalize_bins: member loop not found")
-    _site(ctx, nb, "division", lambda p, e: True, lambda a, env: U(a) in FLOAT_TYPES, recv=loopvar, floor=1)
+    _site(ctx, "C13.a", nb, "division", lambda p, e: True, lambda a, env: U(a) in FLOAT_TYPES, recv=loopvar, floor=1)
     # any other method of the hierarchy that divides / scales contents in place must coerce as well
     for c in m.classes.values():
         if not m.is_subclass(c, "HistogramBase"):
@@ -234,63 +308,21 @@ def run(ctx):
     rd = HB.methods["_reshape_data"]
     ctx.saw(rd)
     allocs = [c for c in calls_in(rd.node) if call_is(c, "zeros", "empty", "zeros_like")]
-    good = [c for c in allocs if any(k.arg == "dtype" and U(k.value) in ("self._frequencies.dtype", "self.dtype", "self._dtype",
-                                                                          "self._errors2.dtype") for k in c.keywords)]
+    good = [c for c in allocs if any(k.arg == "dtype" and U(k.value) in ("self._frequencies.dtype", "self._errors2.dtype") for k in c.keywords)]
     ctx.check(len(allocs) >= 2 and len(good) == len(allocs), "C13.b", "HistogramBase._reshape_data:alloc-dtype",
-              f"{len(allocs)} allocations with the current dtype", "a reshaped array is allocated without the histogram's dtype",
+              f"{len(allocs)} allocations with the element type of the current arrays", "a reshaped array is not allocated with the element type of the array it replaces (the declared dtype may differ and would truncate)",
               rd.where)
     cp = HB.methods["copy"]
     ctx.saw(cp)
     okc = any(isinstance(st, ast.Assign) and U(st.targets[0]).endswith("._dtype") and U(st.value) in ("self.dtype", "self._dtype")
               for st in ast.walk(cp.node))
     ctx.check(okc, "C13.b", "HistogramBase.copy:dtype", "the copy's _dtype is the source's", "copy does not carry _dtype over", cp.where)
-    for cls in (H1, HN):
-        init = cls.methods["__init__"]
-        ctx.saw(init)
-        oks = [c for c in calls_in(init.node) if call_is(c, "array", "zeros") and any(k.arg == "dtype" and U(k.value) == "self.dtype" for k in c.keywords)]
-        stores = [st for st in ast.walk(init.node) if isinstance(st, ast.Assign) and U(st.targets[0]) == "self._missed"]
-        ctx.check(stores and all(isinstance(st.value, ast.Call) and st.value in oks for st in stores), "C13.b",
-                  f"{cls.name}.__init__:missed-dtype", "the missed store is allocated with dtype=self.dtype",
-                  "the missed store is not created with the histogram's dtype", init.where)
+    check_missed_alloc(ctx, "C13.b", m)
 
     # ---- C13.c checks before conversion ----------------------------------------------------------------------
     ctx.rule("C13.c", "set_dtype: integrality (int target, float source) and range checks cover frequencies AND errors2 "
              "and every raise precedes the first store", 3)
-    loops = [n for n in ast.walk(sd.node) if isinstance(n, ast.For)]
-    integ = rng = None
-    for lp in loops:
-        it = U(lp.iter)
-        body = "".join(U(b) for b in lp.body)
-        both = ("frequencies" in it and "errors2" in it)
-        if "% 1" in body:
-            integ = both
-        if "max" in body and "min" in body:
-            rng = both
-    ctx.check(integ is True, "C13.c", "HistogramBase.set_dtype:integrality-both-arrays",
-              "non-integral values are looked for in frequencies and errors2",
-              "the integrality check does not cover both frequencies and errors2", sd.where)
-    ctx.check(rng is True, "C13.c", "HistogramBase.set_dtype:range-both-arrays", "range check over both arrays",
-              "the range check does not cover both frequencies and errors2", sd.where)
-    guard_ok = False
-    order_ok = True
-    for path in function_paths(sd.node):
-        stored = False
-        for step in path:
-            if step[0] == "stmt" and any(w.root == "self" and w.attr in ("_dtype", "_frequencies", "_errors2", "_missed")
-                                         for w in writes_of(step[1])):
-                stored = True
-            if step[0] == "cond" and stored and not U(step[1]).endswith("is not None"):
-                order_ok = False
-        if end_kind(path) == "raise" and stored:
-            order_ok = False
-        cs = [(U(s[1]), s[2]) for s in path if s[0] == "cond"]
-        if ("np.issubdtype(value, np.integer)", True) in cs and ("self.dtype.kind == 'f'", True) in cs:
-            guard_ok = True
-    ctx.check(guard_ok, "C13.c", "HistogramBase.set_dtype:integrality-guard",
-              "integrality is checked when the target is integral and the source is floating",
-              "the integrality check is no longer applied for float -> integer conversions", sd.where)
-    ctx.check(order_ok, "C13.c", "HistogramBase.set_dtype:checks-before-stores", "every test / raise precedes the first store",
-              "set_dtype stores before a later check", sd.where)
+    check_set_dtype_checks(ctx, "C13.c", m)
 
     # ---- C13.d integer dtype + float weights refused ---------------------------------------------------------------
     ctx.rule("C13.d", "both kernels raise when an integer dtype is requested with float weights, before allocating", 2)
